@@ -97,23 +97,22 @@ impl JwsHeader {
 
   /// Returns `true` if the header contains the given `claim`, `false` otherwise.
   pub fn has(&self, claim: &str) -> bool {
+    // A parameter placed in the custom map ends up in the serialized header under that very name.
+    let in_custom: bool = self
+      .custom
+      .as_ref()
+      .map(|custom| custom.contains_key(claim))
+      .unwrap_or(false);
     match claim {
-      "alg" => self.alg().is_some(),
-      "b64" => self.b64().is_some(),
-      _ => {
-        self.common.has(claim)
-          || self
-            .custom
-            .as_ref()
-            .map(|custom| custom.get(claim).is_some())
-            .unwrap_or(false)
-      }
+      "alg" => self.alg().is_some() || in_custom,
+      "b64" => self.b64().is_some() || in_custom,
+      _ => self.common.has(claim) || in_custom,
     }
   }
 
   /// Returns `true` if none of the fields are set in both `self` and `other`.
   pub fn is_disjoint(&self, other: &JwsHeader) -> bool {
-    let has_duplicate: bool = self.alg().is_some() && other.alg.is_some() || self.b64.is_some() && other.b64.is_some();
+    let has_duplicate: bool = self.has("alg") && other.has("alg") || self.has("b64") && other.has("b64");
 
     !has_duplicate && self.common.is_disjoint(other.common()) && self.is_custom_disjoint(other)
   }
@@ -121,15 +120,13 @@ impl JwsHeader {
   /// Returns `true` if none of the fields are set in both `self.custom` and `other.custom`.
   fn is_custom_disjoint(&self, other: &JwsHeader) -> bool {
     match (&self.custom, &other.custom) {
-      (Some(self_custom), Some(other_custom)) => {
-        for self_key in self_custom.keys() {
-          if other_custom.contains_key(self_key) {
-            return false;
-          }
-        }
-        true
+      (None, None) => true,
+      (self_custom, other_custom) => {
+        // A custom parameter also collides with a typed parameter of the same name in the other header.
+        let self_keys = self_custom.iter().flat_map(|custom| custom.keys());
+        let other_keys = other_custom.iter().flat_map(|custom| custom.keys());
+        !self_keys.into_iter().any(|key| other.has(key)) && !other_keys.into_iter().any(|key| self.has(key))
       }
-      _ => true,
     }
   }
 }
